@@ -249,12 +249,15 @@ def _build_bam(lens, layout, tmpdir):
     return path, truth
 
 
-def check_table(path, truth, lens, layout, b, s, keep, tag, dnd, explicit):
+def check_table(path, truth, lens, layout, b, s, keep, tag, dnd, explicit, more=()):
+    """more: further (path, truth, lens) files counted in the same call, each read judged against the contig lengths of ITS
+    OWN file (two alignment files may give a same-named contig different lengths)"""
     from gen import c10_counttable as G
     lengths = {f'chr{i + 1}': L for i, L in enumerate(lens)}
     feats = f'chrom,{tag}' if explicit else 'chrom'
+    files = [(path, truth, lens)] + list(more)
     # -sliding is only given when it differs from the bin size: "If nothing is supplied this value equals the bin size"
-    args = G.default_args(alignmentfiles=[path], bin=b, sliding=(None if s == b else s), keepOverBounds=keep,
+    args = G.default_args(alignmentfiles=[f[0] for f in files], bin=b, sliding=(None if s == b else s), keepOverBounds=keep,
                           binTag=tag, joinedFeatureTags=feats, doNotDivideFragments=dnd)
     if layout == 'single':
         per_coord = 1.0                     # one unpaired read
@@ -262,16 +265,21 @@ def check_table(path, truth, lens, layout, b, s, keep, tag, dnd, explicit):
         per_coord = 2.0 if dnd else 1.0     # two mates: 0.5 + 0.5, or 1 + 1 when fragments are not divided
     exp = {}
     over = 0
-    for contig, coords, sm in truth:
-        for win in windows_containing(coords[tag], b, s):
-            if inside(win, lengths[contig]):
-                pass
-            else:
-                over += 1
-                if not keep:
-                    continue
-            k = ((sm,), (contig, win[0], win[1]))
-            exp[k] = exp.get(k, 0.0) + per_coord
+    for _p, truth_f, lens_f in files:
+        lengths_f = {f'chr{i + 1}': L for i, L in enumerate(lens_f)}
+        for contig, coords, sm in truth_f:
+            for win in windows_containing(coords[tag], b, s):
+                if inside(win, lengths_f[contig]):
+                    pass
+                else:
+                    over += 1
+                    if not keep:
+                        continue
+                k = ((sm,), (contig, win[0], win[1]))
+                exp[k] = exp.get(k, 0.0) + per_coord
+    if more:
+        lengths = {c: max(dict((f'chr{i + 1}', L) for i, L in enumerate(f[2])).get(c, 0) for f in files)
+                   for c in {f'chr{i + 1}' for f in files for i in range(len(f[2]))}}
     try:
         df = G.run_table(args)
         got = G.table_to_dict(df)
@@ -330,6 +338,21 @@ def run_shard(shard, tier, acc):
                                 acc.count('table_entries_compared', len(exp))
                                 for sig, d in viols:
                                     acc.violation(sig, case, d)
+            # two alignment files in one call whose headers give chr1 different lengths, in both orders
+            lens2 = tuple(L + 7 for L in lens)
+            path2, truth2 = _build_bam(lens2, layout, tmp)
+            for s in sorted({1, b, max(1, b // 2)}):
+                for order in ('short-first', 'long-first'):
+                    first = (path, truth, lens) if order == 'short-first' else (path2, truth2, lens2)
+                    second = (path2, truth2, lens2) if order == 'short-first' else (path, truth, lens)
+                    viols, exp, over = check_table(first[0], first[1], first[2], layout, b, s, False, 'DS', False, False,
+                                                   more=[second])
+                    viols = [(sg.replace('create_count_table', 'create_count_table:two-files-different-contig-lengths', 1), d)
+                             for sg, d in viols]
+                    case = {'level': 'table2', 'lens': list(lens), 'layout': layout, 'b': b, 's': s, 'order': order}
+                    acc.case(case, transitions=len(truth) + len(truth2), nontrivial=True, outcome=f'table2:{mode(b, s)}:{order}')
+                    for sig, d in viols:
+                        acc.violation(sig, case, d)
         finally:
             shutil.rmtree(tmp, ignore_errors=True)
     else:
@@ -348,6 +371,20 @@ def replay(case):
             path, truth = _build_bam(tuple(case['lens']), case['layout'], tmp)
             return check_table(path, truth, tuple(case['lens']), case['layout'], case['b'], case['s'], case['keep'],
                                case['binTag'], case['dnd'], case['explicit'])[0]
+        finally:
+            shutil.rmtree(tmp, ignore_errors=True)
+    if lv == 'table2':
+        tmp = tempfile.mkdtemp(prefix='c10_', dir='/dev/shm')
+        try:
+            lens = tuple(case['lens'])
+            lens2 = tuple(L + 7 for L in lens)
+            path, truth = _build_bam(lens, case['layout'], tmp)
+            path2, truth2 = _build_bam(lens2, case['layout'], tmp)
+            first = (path, truth, lens) if case['order'] == 'short-first' else (path2, truth2, lens2)
+            second = (path2, truth2, lens2) if case['order'] == 'short-first' else (path, truth, lens)
+            viols = check_table(first[0], first[1], first[2], case['layout'], case['b'], case['s'], False, 'DS', False, False,
+                                more=[second])[0]
+            return [(sg.replace('create_count_table', 'create_count_table:two-files-different-contig-lengths', 1), d) for sg, d in viols]
         finally:
             shutil.rmtree(tmp, ignore_errors=True)
     raise ValueError(lv)
